@@ -609,6 +609,9 @@ example : (cylMasks (3 / 2 : ℝ) 1 (3 / 2)).onEdge = true :=
 -- … and one on the hull but not on the edge is not, and its modulus is non-zero
 example : cylK ((1 : ℝ) + 3 / 2) 1 ≠ 0 :=
   (cylinder_edge_mask_covers_singular (3 / 2) 1 1 (by norm_num)).2.1 (by norm_num)
+
+end MagpyVerif.C15
+
 /-! ### CylinderSegment: definedness of the case dispatch -/
 namespace MagpyVerif.C15
 open MagpyVerif MagpyVerif.Kern MagpyVerif.Kern.CylSeg
@@ -628,16 +631,40 @@ theorem cylseg_nan_rows_characterised (μ : ℝ) (S : SegSpecial) (f : Field) (x
           (@bdry ℝ N.r1 N.r2 N.phi1 N.phi2 N.z1 N.z2 s).2.1 (@bdry ℝ N.r1 N.r2 N.phi1 N.phi2 N.z1 N.z2 s).2.2 = true :=
   bhjmCylSeg_eq_none_iff μ S f x r1 r2 h p1 p2 pol
 
-/- FULL: `wrapper_never_dispatches_unhandled`: for every observer that the surface mask of `bhjmCylSeg` lets through to the
-core, none of the eight boundary evaluations yields one of the four unhandled ids
-  (∀ x dims pol, (segMasks …).notOnSurf = true → (bhjmCylSeg .H x dims pol).isSome).
-FALSE for the code as it is — `cylseg_apex_end_point_nan` and `cylseg_next_to_vertex_unhandled` below are counterexamples,
-both reproduced on the real code (NaN field).  The surface mask requires `mask_phi_in` / the 1e-14 slabs, the case
-analysis uses `close` with 1e-12 and no azimuth condition on the axis.  Proved instead: observers that `close` does not
-put on a base plane. -/
-/-- C15 (CylinderSegment), the part that holds: an observer that `close` keeps off both base planes (`|z ∓ h/2| > 1e-12·(1 +
-h/2)` in units of the outer radius) gets a row from the dispatch for every field and every polarization -/
-theorem wrapper_never_dispatches_unhandled_partial (μ : ℝ) (S : SegSpecial) (f : Field) (x : V3 ℝ) (r1 r2 h p1 p2 : ℝ)
+/-- **C15 (CylinderSegment), full strength (after the repair of the wrapper's masks, see `fixed:` in known_findings.json)**:
+`wrapper_never_dispatches_unhandled` — for every segment with `|r1| ≤ |r2|` (the documented `r1 < r2`; the hypothesis is only
+used when the outer radius is 0), every observer, every field and every polarization, `BHJM_cylinder_segment` returns a row.
+In particular every observer that the surface mask lets through to the core has, at each of the eight boundaries, one of the 26
+case ids of the dispatch table: no NaN block.  Before the repair this was false (the end points of the apex line of a wedge whose
+range does not contain azimuth 0, and a `1e-14 … 1e-12` shell around every vertex, returned NaN on the real code). -/
+theorem wrapper_never_dispatches_unhandled (μ : ℝ) (S : SegSpecial) (f : Field) (x : V3 ℝ) (r1 r2 h p1 p2 : ℝ)
+    (pol : V3 ℝ) (hr12 : |r1| ≤ |r2|) :
+    (@bhjmCylSeg ℝ (realNumX μ S) f x r1 r2 h p1 p2 pol).isSome = true :=
+  bhjmCylSeg_isSome μ S f x r1 r2 h p1 p2 pol hr12
+
+-- non-vacuity: the wedge of the former counterexample satisfies the hypothesis
+example : |(0 : ℝ)| ≤ |(1 : ℝ)| := by norm_num
+
+/-- the mechanism: whenever a boundary `(r_i, phi_j, z_k)` of the segment would get an unhandled id, the wrapper's masks
+call the observer a surface point (`r ≥ 0`, `r1 ≥ 0` and "outer radius ≈ 0 ⇒ inner radius ≈ 0" hold for every normalised row) -/
+theorem cylseg_unhandled_ids_are_surface_rows (μ : ℝ) (S : SegSpecial) (r phi z r1 r2 p1 p2 z1 z2 ri pj zk : ℝ)
+    (hr : 0 ≤ r) (hr1 : 0 ≤ r1)
+    (hr12 : @close ℝ (realNumX μ S) r2 (@n ℝ (realNum μ) 0) = true → @close ℝ (realNumX μ S) r1 (@n ℝ (realNum μ) 0) = true)
+    (hri : ri = r1 ∨ ri = r2) (hpj : pj = p1 ∨ pj = p2) (hzk : zk = z1 ∨ zk = z2)
+    (h : @unhandledAt ℝ (realNumX μ S) r phi z ri pj zk = true) :
+    (@segMasks ℝ (realNumX μ S) r phi z r1 r2 p1 p2 z1 z2).notOnSurf = false :=
+  segMasks_surface_of_unhandled μ S r phi z r1 r2 p1 p2 z1 z2 ri pj zk hr hr1 hr12 hri hpj hzk h
+
+/-- the two observers that returned NaN before the repair are surface rows now (normalised quantities): the end point of the
+apex line of `CylinderSegment(dimension=(0,1,2,30,120))` at `(0,0,1)`, and the point `5e-13` outside the vertex
+`(r2, phi1, z2)` of the normalised ring segment `r1 = 1/2`, `r2 = 1`, `phi ∈ [0, 1]` rad, `z ∈ [−1, 1]` -/
+theorem cylseg_former_nan_rows_are_surface_rows (μ : ℝ) (S : SegSpecial) :
+    (@segMasks ℝ (realNumX μ S) 0 0 1 0 1 1 2 (-1) 1).notOnSurf = false ∧
+    (@segMasks ℝ (realNumX μ S) (1 + 5 / 10000000000000) 0 (1 + 5 / 10000000000000) (1 / 2) 1 0 1 (-1) 1).notOnSurf = false :=
+  ⟨apex_end_point_surface μ S, next_to_vertex_surface μ S⟩
+
+/-- kept: observers that `close` keeps off both base planes get a row without any hypothesis on the radii -/
+theorem cylseg_row_off_base_planes (μ : ℝ) (S : SegSpecial) (f : Field) (x : V3 ℝ) (r1 r2 h p1 p2 : ℝ)
     (pol : V3 ℝ)
     (hz1 : @close ℝ (realNumX μ S) (@segNormalise ℝ (realNumX μ S) x r1 r2 h p1 p2).obs.z
       (@segNormalise ℝ (realNumX μ S) x r1 r2 h p1 p2).z1 = false)
@@ -646,26 +673,8 @@ theorem wrapper_never_dispatches_unhandled_partial (μ : ℝ) (S : SegSpecial) (
     (@bhjmCylSeg ℝ (realNumX μ S) f x r1 r2 h p1 p2 pol).isSome = true :=
   bhjmCylSeg_isSome_of_off_planes μ S f x r1 r2 h p1 p2 pol hz1 hz2
 
--- non-vacuity: an observer on the apex line of the wedge of counterexample A, but at its centre, gets a row
-example (μ : ℝ) (S : SegSpecial) (f : Field) (pol : V3 ℝ) :
-    (@bhjmCylSeg ℝ (realNumX μ S) f ⟨0, 0, 0⟩ 0 1 2 30 120 pol).isSome = true :=
-  wedge_centre_isSome μ S f pol
--- the mid-plane is off both base planes of a segment of height 2
+-- non-vacuity: the mid-plane is off both base planes of a segment of height 2
 example (μ : ℝ) (S : SegSpecial) : @close ℝ (realNumX μ S) 0 (-1) = false ∧ @close ℝ (realNumX μ S) 0 1 = false := by
   constructor <;> simp [close, isclose, n] <;> norm_num
-
-/-- counterexample A in the user's units (reproduces on the real code: `CylinderSegment(dimension=(0,1,2,30,120)).getH((0,0,1))`
-is `[nan nan nan]`): the end point of the apex line of a wedge whose angular range does not contain the azimuth 0 -/
-theorem cylseg_apex_end_point_nan (μ : ℝ) (S : SegSpecial) (pol : V3 ℝ) :
-    @bhjmCylSeg ℝ (realNumX μ S) .H ⟨0, 0, 1⟩ 0 1 2 30 120 pol = none :=
-  apex_end_point_nan μ S pol
-
-/-- counterexample B on the normalised quantities (reproduces on the real code: `CylinderSegment(dimension=(1,2,2,0,90))
-.getH((2.000000000001, 0, 1.000000000001))` is `[nan nan nan]`): an observer `5e-13` outside a vertex passes the wrapper's
-`1e-14` slabs (not on the surface, not inside) and meets `close`'s `1e-12` at the boundary `(r2, phi1, z2)`: id 114 -/
-theorem cylseg_next_to_vertex_unhandled (μ : ℝ) (S : SegSpecial) (mag phiM thM : ℝ) :
-    (@segMasks ℝ (realNumX μ S) (1 + 5 / 10000000000000) 0 (1 + 5 / 10000000000000) (1 / 2) 1 0 1 (-1) 1).notOnSurf = true ∧
-    @segH ℝ (realNumX μ S) (1 + 5 / 10000000000000) 0 (1 + 5 / 10000000000000) (1 / 2) 1 0 1 (-1) 1 mag phiM thM = none :=
-  next_to_vertex_unhandled μ S mag phiM thM
 
 end MagpyVerif.C15
